@@ -212,7 +212,7 @@ def place_windows(windows, out_shape, kernel_size, step=1, padding=0, dilation=1
         
     # remove padding from dx
     if sum(padding):
-        no_pads = tuple(slice(p, -p if p else None) for p in padding)
+        no_pads = tuple(slice(int(p), -int(p) if p else None) for p in padding) # -p of an unsigned NumPy integer wraps around
         output = output[(..., *no_pads)]
     
     return output
